@@ -17,7 +17,10 @@ class C13(CacheProp):
     rule = ("gate-controlled single-client histories (profiles basic/roomy/tinybuf/should/ttl/internal/collide) with "
             "evictions, rejections, expiries, drops and Clear; at every drained point the white-box dumps of the shard "
             "maps, policy.keyCosts and the expiry buckets plus IterValues/RemainingCost are compared with the model and "
-            "with each other; non-trivial = an eviction, rejection or blocked call occurred")
+            "with each other; non-trivial = an eviction, rejection or blocked call occurred"
+            " Plus, as search only: the store-level race harness (the sweep against an overwrite, spin-synchronised), after "
+            "which the map and the accounting must hold the key together or not at all.")
+    stress_kinds = ("sweeprace",)
 
     def gen(self, rng, n, ctx):
         cases = cachegen.gen_cases(rng, n - n // 12, ctx, self.profiles)
